@@ -87,7 +87,21 @@ def core_mask(v):
     return m
 
 
-def summary(v, has_pressure, has_fpol, tokamak=True, orthogonal=True):
+def radial_order_defects(v, cp):
+    """cells folded over in flux space: psi at the outer corner of a y-face does not lie on the side of the inner corner that dx says
+    (dx = d psi per cell in x); cp = psi of the equilibrium at the four corner arrays"""
+    if not cp or "dx" not in v:
+        return 0, None
+    sg = np.sign(v["dx"])
+    lo = (cp["_lower_right_corners"] - cp["_corners"]) * sg
+    up = (cp["_upper_right_corners"] - cp["_upper_left_corners"]) * sg
+    with np.errstate(all="ignore"):
+        bad = (np.isfinite(lo) & (lo <= 0)) | (np.isfinite(up) & (up <= 0))
+    n = int(bad.sum())
+    return n, (tuple(int(t) for t in np.argwhere(bad)[0]) if n else None)
+
+
+def summary(v, has_pressure, has_fpol, tokamak=True, orthogonal=True, cornerpsi=None):
     """everything the verdict needs, as plain data (this is also what is handed to the Lean verdict function)"""
     sc, arr2 = documented()
     nx, ny = v["Rxy"].shape
@@ -145,8 +159,10 @@ def summary(v, has_pressure, has_fpol, tokamak=True, orthogonal=True):
         minority, bow, torn, worst = cell_defects(v)
         # chord polygons of coarse non-orthogonal cells next to an X-point can have crossing x-edges although the curvilinear cell is not
         # folded (cdn, 4 poloidal cells per core half): crossing chords are recorded, not judged
-        s["fold"] = minority + torn
-        s["fold_detail"] = {"opposite_orientation": minority, "self_intersecting": bow, "torn_x_corners": torn, "worst_x_corner_gap_m": worst}
+        nrad, where = radial_order_defects(v, cornerpsi)
+        s["fold"] = minority + torn + nrad
+        s["fold_detail"] = {"opposite_orientation": minority, "self_intersecting": bow, "torn_x_corners": torn, "worst_x_corner_gap_m": worst,
+                            "radially_reversed": nrad, "first_radially_reversed": where}
     return s
 
 
@@ -170,8 +186,10 @@ def verdict(s, bt_zero):
     if s["fold"]:
         d = s.get("fold_detail", {})
         out.append(("folded-cells", "%d cells have the opposite orientation to the rest (%d have crossing chord edges), %d corners differ "
-                    "between the two x-neighbouring cells that share them (worst gap %.3g m): cells folded over / torn"
-                    % (d.get("opposite_orientation", s["fold"]), d.get("self_intersecting", 0), d.get("torn_x_corners", 0), d.get("worst_x_corner_gap_m", 0.0))))
+                    "between the two x-neighbouring cells that share them (worst gap %.3g m), %d cells have a y-face whose outer corner is on the wrong side of "
+                    "its inner corner in psi (first at %s): cells folded over / torn"
+                    % (d.get("opposite_orientation", s["fold"]), d.get("self_intersecting", 0), d.get("torn_x_corners", 0), d.get("worst_x_corner_gap_m", 0.0),
+                       d.get("radially_reversed", 0), d.get("first_radially_reversed"))))
     return out
 
 
@@ -183,6 +201,7 @@ def stream(tier):
 
     def add(name, sp, expect="any"):
         sp["timeout"] = 600
+        sp["extract"] = list(sp.get("extract", [])) + ["cornerpsi"]
         S.append((name, sp, expect))
 
     add("lsn orth fpol", gridlab.tokamak_spec("lsn", fpol="linear", pressure="parab"))
@@ -190,6 +209,11 @@ def stream(tier):
     add("lsn orth no-fpol", gridlab.tokamak_spec("lsn", fpol=None))
     add("circular", gridlab.circular_spec())
     add("udn orth", gridlab.tokamak_spec("udn", fpol="const"))
+    # slightly disconnected double nulls gridded as connected (nx_inter_sep = 0) with the inner SOL narrower than the outer one: accepted
+    # only if the first gridded surface of BOTH SOLs lies beyond the second separatrix
+    add("ldn as connected, narrow inner sol", gridlab.tokamak_spec("ldn", options={"nx_inter_sep": 0, "psinorm_sol": 1.3, "psinorm_sol_inner": 1.04}, fpol="const"))
+    add("udn as connected, narrow inner sol", gridlab.tokamak_spec("udn", options={"nx_inter_sep": 0, "psinorm_sol": 1.3, "psinorm_sol_inner": 1.04}, fpol="const"))
+    add("ldn as connected, wide sols", gridlab.tokamak_spec("ldn", options={"nx_inter_sep": 0, "psinorm_sol": 1.3, "psinorm_sol_inner": 1.25}, fpol="const"))
     # around the envelope
     add("lsn tiny ny", gridlab.tokamak_spec("lsn", options={"ny_inner_divertor": 1, "ny_outer_divertor": 1, "ny_sol": 2}, fpol="const"))
     add("lsn nx=1", gridlab.tokamak_spec("lsn", options={"nx_core": 1, "nx_sol": 1}, fpol="const"))
@@ -466,10 +490,10 @@ def run(res, tier):
             continue
         hist["grid"] += 1
         bt_zero = sp.get("fpol", "x") is None and sp.get("case") != "circular"
-        grids.append((name, o["vars"], summary(o["vars"], sp.get("pressure") is not None, not bt_zero, tokamak=sp.get("case") != "circular",
-                                               orthogonal=sp["options"].get("orthogonal", True) is not False), bt_zero))
-        probs = verdict(summary(o["vars"], sp.get("pressure") is not None, not bt_zero, tokamak=sp.get("case") != "circular",
-                                orthogonal=sp["options"].get("orthogonal", True) is not False), bt_zero)
+        sm = summary(o["vars"], sp.get("pressure") is not None, not bt_zero, tokamak=sp.get("case") != "circular",
+                     orthogonal=sp["options"].get("orthogonal", True) is not False, cornerpsi=(o.get("extras") or {}).get("cornerpsi"))
+        grids.append((name, o["vars"], sm, bt_zero))
+        probs = verdict(sm, bt_zero)
         for wid, text in probs:
             res.violation(wid, "%s: a grid file is written without error but %s" % (name, text), {"spec": sp})
         if not probs:
